@@ -88,6 +88,21 @@ def r1_entry_pairing(ctx, F):
         fb = forget_blocks(b, v, vf.field(entry, "inode"))
         region = b.reach_set(start, avoid=fb)
         late = [x for x in live_calls(b) if x.bb in region and x.name == "from_residual"]
+        # explicit `return Err(..)` without the give-back counts like a `?`
+        for u in sorted(region):
+            for s_ in b.stmts(u):
+                if s_[0] == "=" and s_[1] == [0] and s_[2][0] == "agg" and isinstance(s_[2][1], dict) and s_[2][1].get("variant") == "Err":
+                    ctx.violation("R1-entry-pairing", nm + "/no-late-exit", "PassthroughFs::%s returns an error after do_lookup took a reference without "
+                                  "forget_one(entry.inode, 1): the inode and its descriptor stay pinned although the client never received the entry" % nm,
+                                  loc=b.loc(s_[3]))
+        # whatever is given back is the looked-up inode, once
+        for x in live_calls(b):
+            if x.name == "forget_one":
+                a = v.call_args(x)
+                ok = vf.strip_upd(a[2]) == vf.strip_upd(vf.field(entry, "inode")) and a[3][0] == "K" and a[3][1] == 1
+                ctx.check("R1-entry-pairing", nm + "/gives-back-the-entry", ok,
+                          "PassthroughFs::%s gives back `%s` x `%s` on its error path; the reference do_lookup took is on entry.inode, once"
+                          % (nm, vf.render(a[2], b, short=True), vf.render(a[3], b, short=True)), loc=x.loc())
         names = []
         for x in late:
             # which fallible call does this exit belong to
